@@ -8,6 +8,7 @@ comparability is transitive: `a ≤ d ≤ b`, `a ~ d`, `d ~ b` ⇒ `a ~ b` (for 
 position where `a` and `b` differ is reached by `d` too).
 -/
 import TeraModel.Lemmas.CollLemmas
+import Mathlib.Data.List.Perm.Subperm
 set_option linter.unusedVariables false
 namespace Tera
 open Tera.Value
@@ -198,6 +199,44 @@ theorem chain_sorted_pairwise (l : List Value) (w : ∀ x ∈ l, x.WF) (s : Sort
       · exact c.1
       · exact cmpb_trans (w a (by simp)) (w d (by simp)) (wr b (by simp [hb]))
           (s.1 d (by simp)) (hs2.1 b hb) c.1 (ihp.1 b hb)
+
+/-- `[a, b] <+~ l` (Batteries `List.Subperm`): `a` and `b` occur in `l` at two different
+positions, in either order.  If two such elements are neither none nor comparable, a `cmp`-sorted
+`l` is refused by `ensure_comparable`. -/
+theorem ensureComparable_refuses (L : List Value) (w : ∀ x ∈ L, x.WF) (s : Sorted Value.cmp L)
+    (a b : Value) (na : a ≠ .none) (nb : b ≠ .none)
+    (hab : Value.partialCmp a b = Option.none) (sub : List.Subperm [a, b] L) :
+    ensureComparable L = false := by
+  cases hc : ensureComparable L with
+  | false => rfl
+  | true =>
+    exfalso
+    have ch := (ensureComparable_iff L).1 hc
+    have wn : ∀ x ∈ nonNone L, x.WF := fun x hx => w x (List.mem_filter.1 hx).1
+    have sn : Sorted Value.cmp (nonNone L) := List.Pairwise.filter _ s
+    have pw := chain_sorted_pairwise (nonNone L) wn sn ch
+    have fa : isNoneV a = false := by
+      cases h : isNoneV a with
+      | false => rfl
+      | true => exact absurd ((isNoneV_iff a).1 h) na
+    have fb : isNoneV b = false := by
+      cases h : isNoneV b with
+      | false => rfl
+      | true => exact absurd ((isNoneV_iff b).1 h) nb
+    have sub' : List.Subperm [a, b] (nonNone L) := by
+      have := List.Subperm.filter (fun v => !isNoneV v) sub
+      simpa [nonNone, List.filter_cons, fa, fb] using this
+    obtain ⟨l', hperm, hsub⟩ := sub'
+    have pw' : l'.Pairwise (fun x y => Cmpb x y ∨ Cmpb y x) :=
+      (pw.sublist hsub).imp (fun h => Or.inl h)
+    have pw2 : [a, b].Pairwise (fun x y => Cmpb x y ∨ Cmpb y x) :=
+      (hperm.pairwise_iff (fun {x y} h => h.symm)).1 pw'
+    have wa : a.WF := w a (sub.subset (by simp))
+    have wb : b.WF := w b (sub.subset (by simp))
+    rw [List.pairwise_cons] at pw2
+    rcases pw2.1 b (by simp) with h | h
+    · exact h hab
+    · exact (Cmpb.symm wb wa h) hab
 
 end Coll
 end Tera
